@@ -201,6 +201,7 @@ def build(run):
     run.verify('convert_time_seq', calls={'dt.time': dt_time_call})
     run.verify('convert_date_seq', calls={'dt.date': dt_date_call})
     run.verify('_name_to_month')
+    verify_numeric_round_trip(run)
     run.verify('_match_pattern', calls={'pattern.search': pattern_search}, ghost={'found': None})
     # ---- lemmas: what the rules mean at the corners the statement names --------------------------------------------------------------
     lo, x, hi = z3.Real('lo'), z3.Real('x'), z3.Real('hi')
@@ -267,3 +268,86 @@ def _match_pattern(c):
             c.ensures('groups_returned', tup_item(Val.tk(r), 1) == Const('match_groups', Val))
         else:
             c.ensures('no_match_leaves_the_string_alone', And(rest == Val.S(s), tup_item(Val.tk(r), 1) == Val.VNone))
+
+
+# ---- export_dt and the numeric round trip ------------------------------------------------------------------------------------------------
+t_hour = Function('t_hour', Val, IntSort()); t_min = Function('t_min', Val, IntSort())
+t_sec = Function('t_sec', Val, IntSort()); t_us = Function('t_us', Val, IntSort())
+d_month = Function('dt_month', Val, IntSort()); d_day = Function('dt_day', Val, IntSort()); d_year = Function('dt_year', Val, IntSort())
+ACCESSORS = {'hour': t_hour, 'minute': t_min, 'second': t_sec, 'microsecond': t_us, 'month': d_month, 'day': d_day, 'year': d_year}
+
+
+def export_getattr(ex, st, pos, node):
+    """getattr(dt_object, <attribute name>) for the attribute names of _ATTRS (trusted: datetime accessors)"""
+    obj, attr = pos
+    if not (isinstance(attr, PConst) and attr.obj in ACCESSORS): raise Unsupported(f'getattr of {attr!r}')
+    return [(st, ZV('int', ACCESSORS[attr.obj](to_val(obj, st))))]
+
+
+def type_as(pycls):
+    def h(ex, e, st): return [(st, PConst(pycls))]
+    return h
+
+
+def make_export(kind, pycls, names):
+    @contract(f'export_dt[{kind}]', qual=Q + 'export_dt', modifies=())
+    def _export(c):
+        x = c.v('dt_object'); r = c.rv; k = Val.tk(r)
+        c.ensures('the_attribute_values_in_order', And(Val.is_T(r), Not(tup_is_tuple(k)), tup_len(k) == len(names),
+                                                       *[tup_item(k, IntVal(i)) == Val.I(ACCESSORS[n](x)) for i, n in enumerate(names)]))
+    return _export
+
+
+import datetime as _dt
+EXPORTS = {'time': (_dt.time, ('hour', 'minute', 'second', 'microsecond')), 'date': (_dt.date, ('month', 'day')),
+           'datetime': (_dt.datetime, ('year', 'month', 'day', 'hour', 'minute', 'second', 'microsecond'))}
+for _k, (_c, _n) in EXPORTS.items(): make_export(_k, _c, _n)
+
+
+@contract('convert_datetime_seq', qual=Q + 'convert_datetime_seq', modifies=())
+def _cdts(c):
+    x = c.v('datetime_seq')
+    c.requires('sequence_of_ints', seq_ints(x))
+    n = tup_len(Val.tk(x))
+    y, mo, d, h, m, s, us = (item_or0(x, IntVal(i)) for i in range(7))
+    valid = And(1 <= y, y <= 9999, 1 <= mo, mo <= 12, 1 <= d, d <= days_in_year(y, mo), time_ok(h, m, s, us))
+    c.raises('ValueError', when=Or(n < 5, n > 7, Not(valid)), iff=True, label='wrong_length_or_out_of_range')
+    c.ensures('year_month_day_hour_minute_second_microsecond_with_zero_defaults', c.rv == mk_datetime(y, mo, d, h, m, s, us))
+
+
+def is_leap(y): return And(y % 4 == 0, Or(y % 100 != 0, y % 400 == 0))
+
+
+def days_in_year(y, month): return If(month == 2, If(is_leap(y), 29, 28), If(Or(month == 4, month == 6, month == 9, month == 11), 30, 31))
+
+
+def dt_datetime_call(ex, e, st):
+    """dt.datetime(*seq, tzinfo=None): trusted constructor contract"""
+    outs = []
+    for s1, vals in ex.evs([a.value for a in e.args], st):
+        x = to_val(vals[0], s1)
+        y, mo, d, h, m, s, us = (item_or0(x, IntVal(i)) for i in range(7))
+        valid = And(1 <= y, y <= 9999, 1 <= mo, mo <= 12, 1 <= d, d <= days_in_year(y, mo), time_ok(h, m, s, us))
+        ok = s1.copy(); ok.assume(valid); outs.append((ok, ZV('val', mk_datetime(y, mo, d, h, m, s, us))))
+        bad = s1.copy(); bad.assume(Not(valid)); bad.label('dt.datetime:raises')
+        outs.append((bad, Raise(PExc('ValueError', val=Val.Obj(fresh('exc', IntSort())), where='callee'))))
+    return outs
+
+
+def verify_numeric_round_trip(run):
+    for kind, (pycls, names) in EXPORTS.items():
+        run.verify(f'export_dt[{kind}]', label=f'export_dt[{kind}]', calls={'type': type_as(pycls), 'builtin:getattr': export_getattr})
+    run.verify('convert_datetime_seq', calls={'dt.datetime': dt_datetime_call})
+    # ---- lemmas: numeric form -> object -> numeric form is the input padded with zeros to its full length -------------------------------
+    # (trusted: the accessors of an object built by a constructor return the constructor's arguments)
+    h, m, s, us = Int('h'), Int('m'), Int('s'), Int('us')
+    t = mk_time(h, m, s, us)
+    inv_t = [t_hour(t) == h, t_min(t) == m, t_sec(t) == s, t_us(t) == us]
+    x = Const('x', Val); k = Val.tk(x)
+    given = [Val.is_T(x), tup_len(k) >= 1, tup_len(k) <= 4, h == item_or0(x, IntVal(0)), m == item_or0(x, IntVal(1)), s == item_or0(x, IntVal(2)), us == item_or0(x, IntVal(3))]
+    j = Int('j')
+    run.lemma('numeric_round_trip/time_of_day_is_the_input_padded_with_zeros', inv_t + given,
+              And(ForAll([j], Implies(And(0 <= j, j < tup_len(k), Val.is_I(tup_item(k, j))),
+                                      Val.I(If(j == 0, t_hour(t), If(j == 1, t_min(t), If(j == 2, t_sec(t), t_us(t))))) == tup_item(k, j))),
+                  Implies(tup_len(k) < 4, t_us(t) == 0), Implies(tup_len(k) < 3, t_sec(t) == 0), Implies(tup_len(k) < 2, t_min(t) == 0)))
+    run.trust('datetime: the attributes of an object built by a constructor are the constructor arguments (used by the round-trip lemmas)')
